@@ -67,6 +67,8 @@ class Cfg(object):
         # all managers of one class compare (and hash) equal, like dataclass managers with equal
         # fields: what stackscope reports must go by identity
         self.on["eqmgr"] = tape.choose(4) == 3
+        # all shadow managers are falsy (like a manager that is also an empty container)
+        self.on["falsymgr"] = tape.choose(4) == 3
         for k, v in force.items():
             if k in self.on:
                 self.on[k] = v
